@@ -111,6 +111,14 @@ class VChoice:
         self.cond, self.a, self.b = cond, a, b
 
 
+class VOpaque:
+    """Result of a call the contract does not model (only with Contract.unknown_calls == 'effect'):
+    every use of it is again an unmodelled effect."""
+
+    def __init__(self, name):
+        self.name = name
+
+
 class VCtxMgr:
     def __init__(self, enter, exit_):
         self.enter, self.exit = enter, exit_
